@@ -113,6 +113,11 @@ fn features_aiger(d: &AigDoc, obs: &mut Obs) -> bool {
     }
     any |= f(a.comment.as_deref().map_or(false, |c| c.contains('\n')), "aiger-multi-line-comment", obs);
     any |= f(a.comment.as_deref() == Some(""), "aiger-empty-comment", obs);
+    any |= f(
+        a.comment.as_deref().map_or(false, |c| c.len() >= 16384) || a.symbols.iter().any(|s| s.2.len() >= 16384),
+        "aiger-string-over-16k",
+        obs,
+    );
     any |= f(!a.bad.is_empty() || !a.constraints.is_empty(), "aiger-bad-or-constraint-section", obs);
     any |= f(!a.justice.is_empty(), "aiger-justice-section", obs);
     any |= f(!a.fairness.is_empty(), "aiger-fairness-section", obs);
@@ -368,6 +373,31 @@ fn forward_strategy() -> impl Strategy<Value = Forward> {
         })
         .prop_map(|(spec, mut doc, feed, w, junk)| {
             let mut writer = None;
+            // occasionally a string at least as long as the writer's 16 KiB buffer (it is written
+            // with a single call, which takes the writer's write-through path)
+            if junk % 37 == 0 {
+                let n = [16383usize, 16384, 16385, 20000, 50000][(junk / 37 % 5) as usize];
+                let big: String = (0..n).map(|k| (b'a' + ((k as u64 * 7 + junk) % 26) as u8) as char).collect();
+                match &mut doc {
+                    Doc::Aiger(d) => {
+                        if junk / 185 % 2 == 0 || d.aig.symbols.is_empty() {
+                            d.aig.comment = Some(big);
+                        } else {
+                            d.aig.symbols[0].2 = big;
+                        }
+                    }
+                    Doc::Btor(lines) => {
+                        if let Some(crate::btor::BLine::Node { comment, symbol, .. }) = lines.first_mut() {
+                            if junk / 185 % 2 == 0 {
+                                *comment = Some(crate::btor::HexBytes(big.into_bytes()));
+                            } else {
+                                *symbol = Some(crate::btor::HexBytes(big.into_bytes()));
+                            }
+                        }
+                    }
+                    _ => {}
+                }
+            }
             match &mut doc {
                 Doc::Dimacs(d) => {
                     // with ignore_header the header may declare anything
